@@ -70,6 +70,14 @@ Proof. vm_compute. repeat split. Qed.
 Lemma gen_create_reader_sequential : gen_create_uses_reader_sequentially = [true; true; true].
 Proof. vm_compute. reflexivity. Qed.
 
+(** What the tee / copy is fed with is the caller's reader itself, not a
+    local reader type wrapped around it (which could turn one of the input's
+    error values into an end of stream). *)
+Definition std_reader_origin : list string := ["param r"; "param r"; "param r"].
+
+Lemma gen_create_reader_unwrapped : gen_create_reader_origin = std_reader_origin.
+Proof. vm_compute. reflexivity. Qed.
+
 (** ** mem: slices are copied on the way in and on the way out *)
 
 Lemma gen_mem_put_copies_ok : gen_mem_put_copies = true.
